@@ -376,6 +376,9 @@ pub mod verif_hooks {
         pub fn is_unresolved(&self, i: usize) -> bool {
             vt::tablet_is_unresolved(&self.0, i)
         }
+        pub fn first_replica_ptr(&self, i: usize) -> Option<usize> {
+            vt::tablet_first_replica_ptr(&self.0, i)
+        }
     }
 
     /// NetworkTopologyStrategy replicas of a single-datacenter ring (node i owns token 100*(i+1), rack `racks[i]`).
